@@ -456,9 +456,10 @@ class TileServiceGrid(object):
 
         self._skip_odd_level = False
 
-        res_factor = self.grid.resolutions[0]/self.grid.resolutions[1]
-        if res_factor == math.sqrt(2):
-            self._skip_odd_level = True
+        if self.grid.levels > 1:
+            res_factor = self.grid.resolutions[0]/self.grid.resolutions[1]
+            if res_factor == math.sqrt(2):
+                self._skip_odd_level = True
 
     def internal_level(self, level):
         """
